@@ -326,6 +326,8 @@ func checkC06(c *Ctx) {
 	runWHEmpty(c, "WH-empty")
 	runWHRows(c, "WH-rows")
 	runWHReset(c, "WH-reset")
+	runWHChild(c, "WH-child")
+	runWHGroups(c, "WH-groups")
 	r.floor("WH-empty", len(c.U.TC), "one ParquetWriter.Write per generated package")
 	r.assume("the reader is sequential from byte 4 (never seeks to chunk offsets) — read from the template, see DESIGN.md §0")
 }
@@ -513,4 +515,258 @@ func runWHReset(c *Ctx, rule string) {
 	}
 	r.floor(rule+"/writers", len(u.TC), "one writer per generated package")
 	r.floor(rule+"/column-types", 16, "16 column types in alltypes")
+}
+
+// --- WH-child: the writer created for the next page of a row group inherits the parent's configuration ---
+//
+// Add creates a child writer when the current page is full. Every field of the writer that an option can set
+// (page size, codec, shared metadata) and the sink must be copied from the parent at that creation site — otherwise
+// later pages of a chunk are written with default settings (another codec than the chunk's footer entry says, pages
+// larger than the configured size).
+func runWHChild(c *Ctx, rule string) {
+	r, u := c.R, c.U
+	for _, path := range u.TC {
+		short := strings.TrimPrefix(path, "uni/")
+		add := u.Func(path, "ParquetWriter.Add")
+		inner := u.Func(path, "newParquetWriter")
+		if add == nil || inner == nil {
+			r.failf("%s: Add / newParquetWriter missing in %s", rule, path)
+			continue
+		}
+		// option-settable fields: fields of ParquetWriter stored by any func(*ParquetWriter) error in the package
+		pw := u.SSAPkgs[path].Pkg.Scope().Lookup("ParquetWriter")
+		own := fieldSet{}
+		structFields(pw.Type(), own)
+		settable := fieldSet{}
+		for _, f := range u.Funcs {
+			if u.pkgPathOf(f) != path || len(f.Params) != 1 || f.Signature.Recv() != nil {
+				continue
+			}
+			if p, ok := f.Params[0].Type().(*types.Pointer); !ok || p.Elem() != pw.Type() {
+				continue
+			}
+			for _, b := range f.Blocks {
+				for _, ins := range b.Instrs {
+					if st, ok := ins.(*ssa.Store); ok {
+						if fa, ok := st.Addr.(*ssa.FieldAddr); ok && fa.X == ssa.Value(f.Params[0]) && own[fieldOf(fa)] {
+							settable[fieldOf(fa)] = true
+						}
+					}
+				}
+			}
+		}
+		// the creation site in Add
+		var site *ssa.Call
+		for _, b := range add.Blocks {
+			for _, ins := range b.Instrs {
+				if call, ok := ins.(*ssa.Call); ok && call.Call.StaticCallee() == inner {
+					site = call
+				}
+			}
+		}
+		r.count(rule+"/creation-sites", 1)
+		key := short + ".(*ParquetWriter).Add child"
+		if site == nil {
+			r.undecided(rule, key, u.Pos(add.Pos()), "Add does not create the next page's writer through newParquetWriter")
+			continue
+		}
+		pos := u.Pos(site.Pos())
+		// what each option argument transfers: field <- expression in the caller
+		got := map[*types.Var]string{}
+		unresolved := ""
+		var elems []ssa.Value
+		last := site.Call.Args[len(site.Call.Args)-1]
+		var collect func(v ssa.Value, depth int)
+		collect = func(v ssa.Value, depth int) {
+			if depth > 4 {
+				unresolved = "option list too deep"
+				return
+			}
+			switch x := v.(type) {
+			case *ssa.Slice:
+				if al, ok := x.X.(*ssa.Alloc); ok {
+					for _, ref := range *al.Referrers() {
+						if ia, ok := ref.(*ssa.IndexAddr); ok {
+							for _, r2 := range *ia.Referrers() {
+								if st, ok := r2.(*ssa.Store); ok && st.Addr == ssa.Value(ia) {
+									elems = append(elems, st.Val)
+								}
+							}
+						}
+					}
+					return
+				}
+				collect(x.X, depth+1)
+			case *ssa.Call:
+				if bi, ok := x.Call.Value.(*ssa.Builtin); ok && bi.Name() == "append" {
+					for _, a := range x.Call.Args {
+						collect(a, depth+1)
+					}
+					return
+				}
+				elems = append(elems, x)
+			case *ssa.Const:
+			default:
+				unresolved = "options come from " + symExpr(v, 0) + ", not from the parent's own fields"
+			}
+		}
+		collect(last, 0)
+		for _, e := range elems {
+			switch x := e.(type) {
+			case *ssa.Call:
+				g := x.Call.StaticCallee()
+				if g == nil || !u.InUniverse(g) || len(x.Call.Args) != 1 {
+					unresolved = "option " + symExpr(e, 0) + " cannot be resolved"
+					continue
+				}
+				// g returns a closure that stores its free variable into a field
+				for _, b := range g.Blocks {
+					ret, ok := lastInstr(b).(*ssa.Return)
+					if !ok {
+						continue
+					}
+					mc, ok := ret.Results[0].(*ssa.MakeClosure)
+					captures := false
+					if ok && len(mc.Bindings) == 1 {
+						switch bnd := mc.Bindings[0].(type) {
+						case *ssa.Parameter:
+							captures = bnd == g.Params[0]
+						case *ssa.Alloc:
+							// captured by reference: the cell holds the parameter and nothing else is stored into it
+							n := 0
+							for _, ref := range *bnd.Referrers() {
+								if st, ok := ref.(*ssa.Store); ok && st.Addr == ssa.Value(bnd) {
+									n++
+									captures = st.Val == ssa.Value(g.Params[0])
+								}
+							}
+							if n != 1 {
+								captures = false
+							}
+						}
+					}
+					if !captures {
+						unresolved = "option constructor " + g.Name() + " does not simply capture its argument"
+						continue
+					}
+					cl := mc.Fn.(*ssa.Function)
+					for _, b2 := range cl.Blocks {
+						for _, ins := range b2.Instrs {
+							if st, ok := ins.(*ssa.Store); ok {
+								if fa, ok := st.Addr.(*ssa.FieldAddr); ok && fa.X == ssa.Value(cl.Params[0]) {
+									if ld, ok := st.Val.(*ssa.UnOp); ok && ld.X == ssa.Value(cl.FreeVars[0]) {
+										got[fieldOf(fa)] = symExpr(x.Call.Args[0], 0)
+									} else if st.Val == ssa.Value(cl.FreeVars[0]) {
+										got[fieldOf(fa)] = symExpr(x.Call.Args[0], 0)
+									}
+								}
+							}
+						}
+					}
+				}
+			case *ssa.Function:
+				// a fixed setter such as Snappy: not an inheritance
+			default:
+				unresolved = "option " + symExpr(e, 0) + " cannot be resolved"
+			}
+		}
+		var bad []string
+		var names []string
+		for f := range settable {
+			names = append(names, f.Name())
+			want := "load(recv." + f.Name() + ")"
+			if got[f] != want {
+				if got[f] == "" {
+					bad = append(bad, f.Name()+" is not passed on")
+				} else {
+					bad = append(bad, f.Name()+" is set from "+got[f])
+				}
+			}
+		}
+		// the sink
+		if len(site.Call.Args) > 0 {
+			if f := fieldOfLoad(site.Call.Args[0]); f == nil || !own[f] || !strings.HasPrefix(symExpr(site.Call.Args[0], 0), "load(recv.") {
+				bad = append(bad, "the sink handed to the child is not the parent's")
+			}
+		}
+		sort.Strings(bad)
+		sort.Strings(names)
+		switch {
+		case len(bad) > 0:
+			msg := strings.Join(bad, "; ")
+			if unresolved != "" {
+				msg += " (" + unresolved + ")"
+			}
+			r.bad(rule, key, pos, "the writer of the next page does not provably inherit the parent's configuration: "+msg+": later pages of a chunk can be written with the defaults (another codec than its footer entry says, another page size)")
+		default:
+			r.ok(rule, key, pos, "the next page's writer gets the parent's sink and "+strings.Join(names, ", "))
+		}
+	}
+	r.floor(rule+"/creation-sites", len(u.TC), "one per generated package")
+}
+
+// --- WH-groups: no row group without rows reaches the footer ---
+func runWHGroups(c *Ctx, rule string) {
+	r, u := c.R, c.U
+	rgs := schemaField(u, "FileMetaData", "RowGroups")
+	numRows := schemaField(u, "RowGroup", "NumRows")
+	if rgs == nil || numRows == nil {
+		r.failf("%s: schema fields not found", rule)
+		return
+	}
+	// A: in the runtime, every append to FileMetaData.RowGroups is guarded by NumRows != 0 of a row group
+	footerGuard := false
+	where := ""
+	_, other := storesTo(u, rgs)
+	for _, st := range other {
+		if u.pkgPathOf(st.Parent()) != rtPath {
+			continue
+		}
+		call, ok := st.Val.(*ssa.Call)
+		if !ok {
+			continue
+		}
+		if bi, ok := call.Call.Value.(*ssa.Builtin); !ok || bi.Name() != "append" {
+			continue
+		}
+		where = u.Pos(st.Pos())
+		footerGuard = guarded(st.Block(), func(iff *ssa.If, truth bool) bool {
+			return nonZeroTest(iff.Cond, truth, func(v ssa.Value) bool { return fieldOfLoad(v) == numRows })
+		}, 0)
+	}
+	for _, path := range u.TC {
+		short := strings.TrimPrefix(path, "uni/")
+		wr := u.Func(path, "ParquetWriter.Write")
+		add := u.Func(path, "ParquetWriter.Add")
+		if wr == nil || add == nil {
+			continue
+		}
+		r.count(rule, 1)
+		counters := map[*types.Var]bool{}
+		for _, f := range incrementedFields(add) {
+			counters[f] = true
+		}
+		writeGuard := false
+		for _, b := range wr.Blocks {
+			for _, ins := range b.Instrs {
+				if call, ok := ins.(*ssa.Call); ok {
+					if sc := call.Call.StaticCallee(); sc != nil && sc.Name() == "StartRowGroup" {
+						writeGuard = guarded(b, func(iff *ssa.If, truth bool) bool {
+							return nonZeroTest(iff.Cond, truth, func(v ssa.Value) bool { f := fieldOfLoad(v); return f != nil && counters[f] })
+						}, 0)
+					}
+				}
+			}
+		}
+		key := short + " empty row groups"
+		switch {
+		case footerGuard:
+			r.ok(rule, key, where, "Footer emits a row group only under NumRows != 0")
+		case writeGuard:
+			r.ok(rule, key, u.Pos(wr.Pos()), "Write opens a new row group only when rows were pending")
+		default:
+			r.bad(rule, key, where, "nothing keeps a row group without rows out of the footer: Footer does not test NumRows before emitting a group and Write opens a new row group even when nothing was pending — a Write with nothing pending leaves an empty row group between two batches, and the reader returns zero-valued records for the rows after it")
+		}
+	}
+	r.floor(rule, len(u.TC), "one writer per generated package")
 }
